@@ -69,6 +69,10 @@ def fire(h, ev, i):
         h.on_update_error(p, 1.5 + i, msg)
     elif ev == 'keepalive':
         h.keepalive_received(p, 2.5 + i)
+    elif ev == 'keepalive_first':
+        # the first KEEPALIVE of a session (the one that establishes it)
+        p.msg_recv_stat = {'Keepalives': 1}
+        h.keepalive_received(p, 2.5 + i)
     elif ev == 'send_open':
         h.send_open(p, 3.5, {'version': 4, 'asn': 65001})
     elif ev == 'open':
@@ -124,6 +128,7 @@ def ob_log(n: int, k: int, maxsize: int) -> bool:
     else:
         assume(maxsize == 10 ** 9)
     fs = fakefs.FS()
+    fs.tick = P.get('tick', 1)
     try:
         h = new_handler(fs, maxsize)
     except SystemExit:
@@ -185,6 +190,15 @@ def obligations(tier, seed):
         out.append(ob('C20/restart/big-record/rotate=%s' % rotate, 'ob_log',
                       {'events': ['update', 'big_update', 'update', 'big_update'], 'after': ['update', 'keepalive'],
                        'mode': 'restart', 'rotate': rotate}, covers=['restarted'], cap=280 if quick else 800))
+    # several files created within the same second (rotation on every record), first KEEPALIVE of a session
+    for rotate in (False, True):
+        out.append(ob('C20/restart/updates/files-in-same-second/rotate=%s' % rotate, 'ob_log',
+                      {'events': patterns['updates'] + ['update', 'update'], 'after': ['update', 'keepalive'], 'mode': 'restart',
+                       'rotate': rotate, 'tick': 0.25}, covers=['restarted'], cap=280 if quick else 800))
+        out.append(ob('C20/restart/first-keepalive/rotate=%s' % rotate, 'ob_log',
+                      {'events': ['send_open', 'open', 'keepalive_first', 'keepalive', 'update'],
+                       'after': ['keepalive_first', 'keepalive'], 'mode': 'restart', 'rotate': rotate}, covers=['restarted'],
+                      cap=280 if quick else 800))
     for pname, evs in patterns.items():
         for aname, aft in afters.items():
             if quick and aname == 'one' and pname != 'updates':
